@@ -7,6 +7,7 @@ CONSTANTS
   CacheWidths = FALSE
   SharedEqualRecords = FALSE
   ClassLevelOption = FALSE
+  StoreBeforeValidate = FALSE
   Emit = TRUE
   EmitOff = 0
 SPECIFICATION Spec
